@@ -141,7 +141,7 @@ fn c12_uci_bestmove_line_contract() {
 /// The `go` argument parser is total (no panic, no overflow) on up to three tokens -- a keyword or arbitrary two bytes, an
 /// arbitrary value of up to three ASCII bytes, one more arbitrary byte -- and understands `depth N` and `movetime N`.
 #[kani::proof]
-#[kani::unwind(8)]
+#[kani::unwind(12)]
 fn c14_uci_go_args_total() {
     let mut b0 = [0u8; 4];
     let mut b1 = [0u8; 4];
